@@ -500,7 +500,7 @@ SWEEP_KINDS = ["dict", "dict", "file_array", "file_array", "mix", "mix", "shared
 
 def generate(rng, tier, mult):
     thorough = tier != "quick"
-    n_req = (40 if not thorough else 250) * mult
+    n_req = (32 if not thorough else 250) * mult
     k_random = 4 if not thorough else 10
     cases = []
     for _ in range(n_req):
